@@ -222,10 +222,7 @@ fn resolve_prefix(w: &World, module: usize, local_imports: &HashMap<String, Item
 pub fn ty_of(w: &World, module: usize, tparams: &[String], t: &TyEx, errors: &mut Vec<String>) -> T {
     match t {
         TyEx::Unit(_) => T::Unit,
-        TyEx::Never(_) => {
-            errors.push("never type in a seed".into());
-            T::Unit
-        }
+        TyEx::Never(_) => T::Never,
         TyEx::Opt(inner, _) => T::opt(ty_of(w, module, tparams, inner, errors)),
         TyEx::Anon(fs, _) => T::anon(fs.iter().map(|(n, t)| (n.name.clone(), ty_of(w, module, tparams, t, errors))).collect()),
         TyEx::Path(segs, args, _) => {
@@ -369,7 +366,7 @@ pub fn analyze(files: &[SrcFile], parsed: &Parsed, ctx_vars: &[(&str, T)]) -> An
     Analysis { world, info, match_variants, decl_ty, errors }
 }
 
-fn diverges_expr(e: &Ex) -> bool {
+pub fn diverges_expr(e: &Ex) -> bool {
     match &e.k {
         EK::Ret(..) => true,
         EK::Block(b) => diverges_block(b),
@@ -379,7 +376,7 @@ fn diverges_expr(e: &Ex) -> bool {
     }
 }
 
-fn diverges_block(b: &Blk) -> bool {
+pub fn diverges_block(b: &Blk) -> bool {
     b.stmts.iter().any(|s| match s {
         St::Let(_, _, x, _) | St::Expr(x, _) => diverges_expr(x),
     }) || b.tail.as_ref().is_some_and(|t| diverges_expr(t))
@@ -471,7 +468,8 @@ impl<'a> An<'a> {
         self.record = false;
         let c = self.synth_inner(e);
         self.record = saved;
-        c
+        // an expression of type `!` (a call of a diverging function) fits every context
+        if c == Cl::Exact(T::Never) { Cl::Any } else { c }
     }
 
     fn synth_block(&mut self, b: &Blk) -> Cl {
